@@ -380,6 +380,7 @@ func c27(c *hx.Ctx) {
 		subsL  []string       // order
 		pcs    [][2]any       // (peer, channel)
 		msgs   []symMsg
+		gated  bool // observer 1 does not read its stream for a while (back-pressure)
 		result *node27Result
 	}
 	scens := make([]*scen, nNode)
@@ -420,6 +421,38 @@ func c27(c *hx.Ctx) {
 				sent = append(sent, gg.forged())
 			}
 		}
+		// an authentic message whose fields are proto3-zero (empty data, no timestamp) right
+		// after a rejected one: nothing of the rejected entry may survive into it
+		usedEmpty := map[string]bool{}
+		for e := 0; e < 2; e++ {
+			k, ch := c.Rng.Intn(4), gg.pickCh()
+			if usedEmpty[fmt.Sprint(k, ch)] || c.Rng.Intn(4) == 0 {
+				continue
+			}
+			usedEmpty[fmt.Sprint(k, ch)] = true
+			hm := honest(k, []byte{}, ch, []int{0, 1, 1, 2}[c.Rng.Intn(4)])
+			hm.class = "honest-empty"
+			pos := c.Rng.Intn(len(sent) + 1)
+			ins := []symMsg{gg.forged(), hm}
+			sent = append(sent[:pos], append(ins, sent[pos:]...)...)
+		}
+		// back-pressure: observer 1 stops reading while more than its send queue holds is forwarded to it
+		if i%8 == 3 {
+			s.gated = true
+			ch := gg.chans[0]
+			found := false
+			for _, pc := range s.pcs {
+				if pc[0].(int) == 1 && pc[1].(string) == ch {
+					found = true
+				}
+			}
+			if !found {
+				s.pcs = append(s.pcs, [2]any{1, ch})
+			}
+			for j := 0; j < 36+c.Rng.Intn(10); j++ {
+				sent = append(sent, honest([]int{0, 2, 3}[c.Rng.Intn(3)], gg.data("b"), ch, c.Rng.Intn(4)))
+			}
+		}
 		mk := honest(3, gg.data("marker"), "zz-marker", 0)
 		mk.class = "marker"
 		sent = append(sent, mk)
@@ -429,7 +462,7 @@ func c27(c *hx.Ctx) {
 
 	parallel(len(scens), 8, func(i int) {
 		s := scens[i]
-		s.result = runNode27(r, s.subs, s.subsL, s.pcs, s.msgs)
+		s.result = runNode27(r, s.subs, s.subsL, s.pcs, s.msgs, s.gated)
 	})
 
 	for _, s := range scens {
@@ -474,7 +507,7 @@ func c27(c *hx.Ctx) {
 		}
 		for _, d := range res.delivered {
 			m, ok := byData[string(d.data)]
-			okClass := ok && (m.class == "honest" || m.class == "marker" || m.class == "replay")
+			okClass := ok && (m.class == "honest" || m.class == "honest-empty" || m.class == "marker" || m.class == "replay")
 			switch {
 			case !okClass:
 				cl := "unknown"
@@ -498,7 +531,7 @@ func c27(c *hx.Ctx) {
 					continue
 				}
 				m := s.msgs[idx]
-				if m.class != "honest" && m.class != "marker" && m.class != "replay" {
+				if m.class != "honest" && m.class != "honest-empty" && m.class != "marker" && m.class != "replay" {
 					c.Failf("c27-forged-forwarded-"+m.class, desc, "a %s message was forwarded to peer %d", m.class, p)
 					continue
 				}
@@ -544,7 +577,7 @@ func (r *node27Result) descDelivered() []string {
 }
 
 // runNode27 runs one real FloodSub against a raw sender (peer 0) and two raw observers.
-func runNode27(r *realizer, subs map[string]int, order []string, pcs [][2]any, msgs []symMsg) *node27Result {
+func runNode27(r *realizer, subs map[string]int, order []string, pcs [][2]any, msgs []symMsg, gated bool) *node27Result {
 	ctx, cancel := context.WithCancel(context.Background())
 	defer cancel()
 	fs := newFloodSub(ctx)
@@ -622,6 +655,13 @@ func runNode27(r *realizer, subs map[string]int, order []string, pcs [][2]any, m
 	for i, m := range msgs {
 		reals[i] = r.real(m)
 	}
+	if gated {
+		peers[1].gate.shut()
+		go func() {
+			time.Sleep(250 * time.Millisecond)
+			peers[1].gate.open()
+		}()
+	}
 	for i := 0; i < len(reals); i++ {
 		pk := &floodsub.Packet{Publish: []*peer.SignedMsg{reals[i]}}
 		if i+2 < len(reals) && i%3 == 1 {
@@ -696,7 +736,12 @@ func runNode27(r *realizer, subs map[string]int, order []string, pcs [][2]any, m
 		}
 		return 99
 	}
-	firstIdx := func(data []byte) int {
+	firstIdx := func(ch string, from int, data []byte) int {
+		for i, m := range msgs {
+			if !m.body.junk && string(m.body.data) == string(data) && m.body.ch == ch && !m.from.none && m.from.k == from {
+				return i
+			}
+		}
 		for i, m := range msgs {
 			if !m.body.junk && string(m.body.data) == string(data) {
 				return i
@@ -711,7 +756,7 @@ func runNode27(r *realizer, subs map[string]int, order []string, pcs [][2]any, m
 		if d, ok := agg[k]; ok {
 			d.count++
 		} else {
-			agg[k] = &delivery{ch: rc.ch, from: keyOf(rc.from), data: rc.data, count: 1, first: firstIdx(rc.data)}
+			agg[k] = &delivery{ch: rc.ch, from: keyOf(rc.from), data: rc.data, count: 1, first: firstIdx(rc.ch, keyOf(rc.from), rc.data)}
 		}
 	}
 	mu.Unlock()
